@@ -9,7 +9,8 @@ Abstract design (AD), JSON-able:
      "cables":[{"name","width","base"}], "instances":[{"name","ref":[lib,def],"properties":{}}],
      "nets":[{"cable","bit","endpoints":[["port",p,bit]|["inst",i,p,bit]]}]}]}], "top":[lib,def], "top_instance_name"}
   bits include the base of their bundle.  Verilog ADs additionally carry per instance "params"/"attrs",
-  per definition "params"/"attrs"/"assigns", per cable "attrs"; EBLIF ADs are produced by gen_flat().
+  per definition "params"/"attrs"/"assigns"/"aliases" (port -> MSB-first list of the 1-bit nets of a header alias), per cable
+  "attrs"; flat EBLIF ADs are produced by render_eblif.gen_flat().
 """
 import sys, os, json, random, hashlib, signal, tempfile, shutil, time, glob, traceback, re
 import spydrnet as sdn
@@ -116,12 +117,97 @@ def try_compose(netlist, path, pid, **kw):
         return ('%s.writer-raises' % pid, '%s@%s' % (type(e).__name__, where(e)), '%s: %s' % (type(e).__name__, str(e)[:300]))
 
 
-def wellformed(netlist, pid, max_objs=60000):
+def inv_linear(objs):
+    """The clauses I1-I4 of irlib.check_inv evaluated with identity-keyed tables instead of nested scans (irlib.check_inv is
+    quadratic in the number of objects); used above SMALL objects, cross-checked against irlib.check_inv below."""
+    from spydrnet.ir import OuterPin as OP
+    by = {k: [] for k in irlib.CLS}
+    for o in objs:
+        k = irlib.kind(o)
+        if k in by:
+            by[k].append(o)
+    errs = []
+    for ccls, lf, ecls, pf in irlib.REL:
+        counts = {}
+        for c in by[ccls]:
+            d = counts[id(c)] = {}
+            for e in getattr(c, lf):
+                if irlib.kind(e) != ecls:
+                    errs.append(('I1.foreign', '%s.%s lists a %s' % (ccls, lf, irlib.kind(e))))
+                d[id(e)] = d.get(id(e), 0) + 1
+                if getattr(e, pf, None) is not c:
+                    errs.append(('I1.%s' % lf, '%s.%s lists an element whose %s is not the container' % (ccls, lf, pf)))
+            for k, v in d.items():
+                if v != 1:
+                    errs.append(('I1.%s' % lf, '%s.%s lists element %d time(s)' % (ccls, lf, v)))
+        for e in by[ecls]:
+            p = getattr(e, pf)
+            if p is not None and id(p) in counts and counts[id(p)].get(id(e), 0) != 1:
+                errs.append(('I1.%s' % lf, 'element.%s is a container that lists it %d time(s)' % (pf, counts[id(p)].get(id(e), 0))))
+    stored = []
+    for i in by['Instance']:
+        for q, o in i._pins.items():
+            stored.append(o)
+            if not (isinstance(o, OP) and o._instance is i and o._inner_pin is q):
+                errs.append(('I3.values', 'outer pin stored under a key does not name (instance, key)'))
+        d = i.reference
+        if d is None:
+            if len(i._pins):
+                errs.append(('I3.noref-keys', 'instance without reference carries %d outer pins' % len(i._pins)))
+        elif irlib.kind(d) != 'Definition':
+            errs.append(('I3.reftype', 'reference is a %s' % irlib.kind(d)))
+        else:
+            want = set(id(q) for p in d.ports for q in p.pins)
+            have = set(id(q) for q in i._pins)
+            if want != have:
+                errs.append(('I3.keys', 'instance has %d outer pins, its definition has %d inner pins' % (len(have), len(want))))
+            if not any(i is r for r in d._references):
+                errs.append(('I3.refsets', 'instance.reference does not list the instance among its references'))
+    for dd in by['Definition']:
+        for r in dd._references:
+            if r.reference is not dd:
+                errs.append(('I3.refsets', 'reference set lists an instance that references another definition'))
+    stored_ids = set(id(o) for o in stored)
+    real = by['InnerPin'] + stored
+    real_ids = set(id(p) for p in real)
+    wcount = {}
+    for w in by['Wire']:
+        d = wcount[id(w)] = {}
+        for p in w.pins:
+            d[id(p)] = d.get(id(p), 0) + 1
+            if getattr(p, 'wire', None) is not w:
+                errs.append(('I2.listed-wire', 'wire lists a pin that reports another wire / none'))
+            if id(p) not in real_ids:
+                errs.append(('I2.listed-notreal', 'wire lists a %s that is neither an inner pin nor a stored outer pin' % irlib.kind(p)))
+        if any(v != 1 for v in d.values()):
+            errs.append(('I2.dup', 'wire lists a pin several times'))
+    for p in real:
+        w = p.wire
+        if w is not None:
+            if irlib.kind(w) != 'Wire':
+                errs.append(('I2.wiretype', 'pin.wire is a %s' % irlib.kind(w)))
+            elif wcount.get(id(w), {}).get(id(p), sum(1 for q in w.pins if q is p)) != 1:
+                errs.append(('I2.reports', 'pin reports a wire that does not list it exactly once'))
+    for o in by['OuterPin']:
+        if o._instance is None and o._wire is not None and id(o) not in stored_ids:
+            errs.append(('I4', 'detached outer pin still reports a wire'))
+    return errs
+
+
+SMALL = 6000
+
+
+def wellformed(netlist, pid, max_objs=10 ** 9):
     """Inv (I1-I4) over the closure of the netlist + self-containment. Returns failure triples."""
     out = []
     objs = irlib.closure([netlist])
     if len(objs) <= max_objs:
-        errs = irlib.check_inv(objs)
+        errs = inv_linear(objs)
+        if len(objs) <= SMALL:
+            ref = irlib.check_inv(objs)
+            if bool(ref) != bool(errs):
+                out.append(('HARNESS', 'inv-evaluators-disagree', 'irlib.check_inv: %r / linear: %r' % (ref[:2], errs[:2])))
+            errs = ref or errs
         for cl, det in errs[:3]:
             out.append(('%s.inv.%s' % (pid, cl), cl, det))
     libs = list(netlist.libraries)
@@ -389,7 +475,17 @@ def gen_hier(seed, flavor):
             p = {'name': N.fresh(local, 'port'), 'direction': r.choice(DIRS if r.random() < 0.25 else DIRS[:2]), 'width': w,
                  'base': 0 if (V or w == 1) else r.choice([0, 0, 1, 3]), 'downto': True if V else r.random() < 0.8}
             d['ports'].append(p)
-            if V:
+            if V and w > 1 and not p['name'].startswith('\\') and r.random() < 0.12:
+                # header alias  .p({\p[1] , \p[0] }) : the port has no same-named cable, bit b is the 1-bit net \p[b]
+                al = []
+                for b in range(w):
+                    cn = '\\%s[%d]' % (p['name'], b)
+                    local.add(cn)
+                    d['cables'].append({'name': cn, 'width': 1, 'base': 0})
+                    nets[(cn, 0)] = [['port', p['name'], b]]
+                    al.insert(0, cn)
+                d.setdefault('aliases', {})[p['name']] = al
+            elif V:
                 d['cables'].append({'name': p['name'], 'width': w, 'base': 0})
                 for b in range(w):
                     nets[(p['name'], b)] = [['port', p['name'], b]]
@@ -472,7 +568,7 @@ def gen_hier(seed, flavor):
         if V:
             d['params'] = {k: r.choice(['4', "16'h0000", '"DEFAULT"']) for k in r.sample(PK, r.choice([0, 0, 0, 1, 2]))}
             d['attrs'] = {k: r.choice([None, '"yes"', '1']) for k in r.sample(['STRUCTURAL_NETLIST', 'ECO_CHECKSUM', 'keep_hierarchy'], r.choice([0, 0, 1, 2]))}
-            pn = set(p['name'] for p in d['ports'])
+            pn = set(p['name'] for p in d['ports']) | set(x for al in d.get('aliases', {}).values() for x in al)
             for c in d['cables']:
                 if c['name'] not in pn and not c['name'].startswith('\\<const') and r.random() < 0.2:
                     c['attrs'] = {k: r.choice([None, '"true"', '2']) for k in r.sample(['MARK_DEBUG', 'KEEP', 'max_fanout'], r.randint(1, 2))}
@@ -778,6 +874,68 @@ def net_canon_verilog(n):
                         pairs.append([net(ports['o']), net(ports['i'])])
                 D['assigns'].append(sorted(pairs, key=json.dumps))
             D['assigns'].sort(key=json.dumps)
+    if not c['dups']:
+        del c['dups']
+    return c
+
+
+# ------------------------------------------------------------------------------------------ canon of a netlist (EBLIF view)
+def net_canon_eblif(n, by_name=False):
+    """Flat view: models (library, ports with direction/width, leaf-ness), instances of the top model with their type and data,
+    nets of the top model as sets of pins (parts) and by (cable name, position) (named).
+    Instance key: the .cname when the reader recorded one, else '#k' for the k-th instance without one (by_name: always the name)."""
+    c = {'top': None, 'models': {}, 'insts': {}, 'parts': [], 'named': {}, 'dups': []}
+    t = n.top_instance
+    top = t.reference if t is not None else None
+    if top is not None:
+        c['top'] = top.name
+    for l in n.libraries:
+        for d in l.definitions:
+            if d.name in c['models']:
+                c['dups'].append(['model', d.name])
+            c['models'][d.name] = {'lib': l.name, 'leaf': len(d.cables) == 0 and len(d.children) == 0,
+                                   'ports': {p.name: {'dir': p.direction.name, 'width': len(p.pins)} for p in d.ports}}
+    if top is None:
+        return c
+    keys = {}
+    un = 0
+    for i in top.children:
+        cn = i.data.get('EBLIF.cname')
+        if by_name:
+            key = i.name
+        elif cn is not None:
+            key = cn
+        else:
+            key = '#%d' % un
+            un += 1
+        if key in c['insts']:
+            c['dups'].append(['instance', key])
+        keys[id(i)] = key
+        r = i.reference
+        rec = {'ref': r.name if r is not None else None, 'type': i.data.get('EBLIF.type'), 'cname': cn,
+               'attr': dict(i.data.get('EBLIF.attr') or {}), 'param': dict(i.data.get('EBLIF.param') or {})}
+        if by_name:
+            rec.pop('cname')
+        if i.data.get('EBLIF.type') == 'EBLIF.names':
+            rec['covers'] = [str(x).split() for x in (i.data.get('EBLIF.output_covers') or [])]
+        c['insts'][key] = rec
+    for cb in top.cables:
+        for k, w in enumerate(cb.wires):
+            pins = []
+            for p in w.pins:
+                if isinstance(p, OuterPin):
+                    ep = endpoint(p, None)
+                    if p.instance.reference is not None and p.instance.reference.name == 'generic-latch' and ep[2] in ('type', 'init-val'):
+                        continue          # latch type / initial value are not nets
+                    ep[1] = keys.get(id(p.instance), ep[1])
+                else:
+                    ep = endpoint(p, None)
+                pins.append(ep)
+            pins.sort(key=json.dumps)
+            if pins:
+                c['parts'].append(pins)
+                c['named']['%s[%d]' % (cb.name, k)] = pins
+    c['parts'].sort(key=json.dumps)
     if not c['dups']:
         del c['dups']
     return c
